@@ -184,6 +184,26 @@ impl Run {
                 staged.insert(it.id);
             }
         }
+        // Store-level recovery over the listing: a published envelope (intact commit marker) whose
+        // material is missing or damaged must obstruct the recovery, never shrink its result.
+        let lost: Vec<String> = self
+            .items
+            .iter()
+            .filter(|it| {
+                let (es, ms) = self.states(it);
+                ms == FileState::Intact && es != FileState::Intact
+            })
+            .map(|it| sid(&it.id))
+            .collect();
+        let rec = catch(|| warp_core::wsc::retention_records_from_wsc_store(&self.store)).map_err(|p| v(&panic_class("retention_records_from_wsc_store"), p))?;
+        match (&rec, lost.is_empty()) {
+            (Ok(_), false) => {
+                return Err(v("recovery_complete_despite_missing_material", format!("retention_records_from_wsc_store returned Ok although the published envelopes {lost:?} have no intact material file")));
+            }
+            (Err(o), false) => ctx.hit(&format!("reach.store_recovery_obstructed.{}", obs_kind(o))),
+            (Ok(_), true) => ctx.hit("reach.store_recovery_ok"),
+            (Err(_), true) => ctx.hit("reach.store_recovery_obstructed_for_other_reasons"),
+        }
         let l = catch(|| self.store.list_envelopes()).map_err(|p| v(&panic_class("list_envelopes"), p))?;
         if l.windows(2).any(|w| w[0] >= w[1]) {
             return Err(v("list_not_sorted", "list_envelopes() is not strictly ascending".to_owned()));
